@@ -33,7 +33,10 @@ type Pipe struct {
 	Filter func(b []byte) (deliver [][]byte, delay time.Duration)
 	// Silent, when set to true, swallows everything this end sends without closing (silent failure).
 	Silent bool
-	mu     sync.Mutex
+	// Detached, when set, turns this end into the end of a machine that vanished without a trace: what it
+	// sends is swallowed and its Close is not seen by the other end (ForceClose still ends the link).
+	Detached bool
+	mu       sync.Mutex
 }
 
 // NewPipePair makes the two ends of one link.
@@ -57,7 +60,7 @@ func (p *Pipe) Send(b []byte) error {
 		p.Tap(cp)
 	}
 	p.mu.Lock()
-	silent, filter := p.Silent, p.Filter
+	silent, filter := p.Silent || p.Detached, p.Filter
 	p.mu.Unlock()
 	if silent {
 		return nil
@@ -94,6 +97,20 @@ func (p *Pipe) Recv(timeout time.Duration) ([]byte, error) {
 }
 
 func (p *Pipe) Close() error {
+	p.mu.Lock()
+	det := p.Detached
+	p.mu.Unlock()
+	if det {
+		return nil
+	}
+	return p.ForceClose()
+}
+
+// SetDetached: see the Detached field.
+func (p *Pipe) SetDetached(v bool) { p.mu.Lock(); p.Detached = v; p.mu.Unlock() }
+
+// ForceClose ends the link for both ends, detached or not.
+func (p *Pipe) ForceClose() error {
 	p.once.Do(func() {
 		defer func() { _ = recover() }()
 		close(p.closed)
